@@ -50,7 +50,8 @@ None == "none"
 
 AnyCmds   == {"CAPABILITY", "NOOP", "ID_GET", "ID_SET"}
 \* LOGIN_<user><password>: ux / px are a user name / password nobody has
-LoginCmds == {"LOGIN_u1p1", "LOGIN_u2p2", "LOGIN_u1p2", "LOGIN_u2p1", "LOGIN_u1px", "LOGIN_uxp1", "LOGIN_uxpx"}
+\* pw: the user's own password with white space in front of or behind it (a different password)
+LoginCmds == {"LOGIN_u1p1", "LOGIN_u2p2", "LOGIN_u1p2", "LOGIN_u2p1", "LOGIN_u1px", "LOGIN_uxp1", "LOGIN_uxpx", "LOGIN_u1pw"}
 AuthCmds  == {"SELECT_shared", "EXAMINE_shared", "SELECT_extra", "EXAMINE_extra",
               "CREATE_extra", "DELETE_extra", "DELETE_moved", "RENAME_em", "RENAME_me",
               "SUBSCRIBE_shared", "UNSUBSCRIBE_shared", "LIST", "LSUB",
